@@ -13,7 +13,7 @@ fn find(h: &[u8], n: &[u8]) -> bool { !n.is_empty() && h.windows(n.len()).any(|w
 impl Prop for C16 {
     fn id(&self) -> &'static str { "C16" }
     fn rule(&self) -> String {
-        "real binary: key generate, then k password changes (k = 1..4 quick, up to 8 thorough) over passwords {empty, ASCII, UTF-8, 100 bytes, two long passphrases sharing an 87-byte prefix, trailing space}, including changes to the SAME password, interleaved with extract-pub and with an encrypt/decrypt round trip using the current string; \
+        "real binary: key generate, then k password changes (k = 1..4 quick, up to 8 thorough) over passwords {empty, ASCII, UTF-8, 100 bytes, two long passphrases sharing an 87-byte prefix, trailing space}, including changes to the SAME password, interleaved with extract-pub (run with KESTREL_KEYRING naming a keyring that holds the very locked string — next to its own or to somebody else's public key) and with an encrypt/decrypt round trip using the current string; \
          every printed PrivateKey string is unlocked by the Lean model with the newest password to one and the same private key; every earlier password of the history (unless equal as an HMAC key) and unrelated passwords are refused by the binary (extract-pub and change-pass) and by the model, including histories where passwords differ only by trailing white space or line endings; salts pairwise distinct; \
          extract-pub always prints the PublicKey line written at generation, equal to encode(pub(sk)) computed by the model; no output (stdout, stderr, keyring) contains the private key in raw, hex or base64 form. non-trivial = distinct history".into()
     }
@@ -55,7 +55,9 @@ impl Prop for C16 {
         for i in 0..k {
             let (old, new) = (pws[i].clone(), pws[i + 1].clone());
             // extract-pub with the current password
-            let x = run_kestrel(&World { files: vec![], env: vec![("KESTREL_PASSWORD".into(), old.clone())], stdin: vec![] }, &sv(&["key", "extract-pub", &cur, "--env-pass"]));
+            // (the configured keyring holds this very locked string next to SOMEBODY ELSE's public key: what is printed must come from the private key)
+            let decoy_ring = format!("[Key]\nName = subject\nPublicKey = {}\nPrivateKey = {}\n", fixtures().carol.enc_pk, cur).into_bytes();
+            let x = run_kestrel(&World { files: vec![("kr.txt".into(), decoy_ring)], env: vec![("KESTREL_PASSWORD".into(), old.clone()), ("KESTREL_KEYRING".into(), "kr.txt".into())], stdin: vec![] }, &sv(&["key", "extract-pub", &cur, "--env-pass"]));
             outputs.push(x.stdout.clone()); outputs.push(x.stderr.clone().into_bytes());
             if x.exit != Some(0) || String::from_utf8_lossy(&x.stdout).trim() != publine { o.oracle_fail = Some(("extract-pub-prints-generation-line".into(), format!("after {} changes extract-pub printed {:?} (exit {:?}), generation wrote {:?}", i, String::from_utf8_lossy(&x.stdout).trim(), x.exit, publine))); return o; }
             // a wrong old password must stop the change
@@ -79,9 +81,11 @@ impl Prop for C16 {
             // ... and through the tool itself: every earlier password that differs (as an HMAC key) from the newest one is refused
             for (j, earlier) in pws[..=i].iter().enumerate() {
                 if crate::props::c15::hmac_norm(earlier.as_bytes()) == crate::props::c15::hmac_norm(new.as_bytes()) { continue; }
-                let x = run_kestrel(&World { files: vec![], env: vec![("KESTREL_PASSWORD".into(), earlier.clone())], stdin: vec![] }, &sv(&["key", "extract-pub", &next, "--env-pass"]));
+                // (the configured keyring holds the key — with its public key in the clear: knowing the password is still what the command asks for)
+                let own_ring = format!("[Key]\nName = subject\n{}\nPrivateKey = {}\n", publine, next).into_bytes();
+                let x = run_kestrel(&World { files: vec![("kr.txt".into(), own_ring.clone())], env: vec![("KESTREL_PASSWORD".into(), earlier.clone()), ("KESTREL_KEYRING".into(), "kr.txt".into())], stdin: vec![] }, &sv(&["key", "extract-pub", &next, "--env-pass"]));
                 if x.exit != Some(1) || !x.stdout.is_empty() { o.oracle_fail = Some(("earlier-password-stops-working".into(), format!("after change {} (to {:?}) `kestrel key extract-pub` still accepts password {} of the history ({:?}): exit {:?}, printed {:?}", i + 1, new, j, earlier, x.exit, String::from_utf8_lossy(&x.stdout).trim()))); return o; }
-                let y = run_kestrel(&World { files: vec![], env: vec![("KESTREL_PASSWORD".into(), earlier.clone()), ("KESTREL_NEW_PASSWORD".into(), "n".into())], stdin: vec![] }, &sv(&["key", "change-pass", &next, "--env-pass"]));
+                let y = run_kestrel(&World { files: vec![("kr.txt".into(), own_ring)], env: vec![("KESTREL_PASSWORD".into(), earlier.clone()), ("KESTREL_NEW_PASSWORD".into(), "n".into()), ("KESTREL_KEYRING".into(), "kr.txt".into())], stdin: vec![] }, &sv(&["key", "change-pass", &next, "--env-pass"]));
                 if y.exit != Some(1) || !y.stdout.is_empty() { o.oracle_fail = Some(("earlier-password-stops-working".into(), format!("after change {} (to {:?}) `kestrel key change-pass` still accepts password {} of the history ({:?}) as the old password", i + 1, new, j, earlier))); return o; }
             }
             let salt = Base64::decode_to_vec(&next, None).map(|b| b[4..36].to_vec()).unwrap_or_default();
